@@ -55,7 +55,9 @@ class VisionsBaseTypeMeta(ABCMeta):
     def relations(cls) -> RelationsIterManager:
         from visions.relations.relations import IdentityRelation
 
-        if cls._relations is None:
+        # the cache belongs to this very class: a subclass must not pick up the
+        # relations its parent cached (they are bound to the parent)
+        if cls.__dict__.get("_relations") is None:
             cls._relations = RelationsIterManager(
                 [
                     (
